@@ -654,7 +654,7 @@ func decodeRaftEntries(data []byte) (uint64, []myraft.Entry, error) {
 		if err != nil {
 			return 0, nil, err
 		}
-		if idx+int(size) > len(data) {
+		if size > uint64(len(data)-idx) {
 			return 0, nil, io.ErrUnexpectedEOF
 		}
 		var entry myraft.Entry
@@ -692,7 +692,7 @@ func decodeRaftHardState(data []byte) (uint64, myraft.HardState, error) {
 	if err != nil {
 		return 0, st, err
 	}
-	if idx+int(size) > len(data) {
+	if size > uint64(len(data)-idx) {
 		return 0, st, io.ErrUnexpectedEOF
 	}
 	if err := st.Unmarshal(data[idx : idx+int(size)]); err != nil {
@@ -727,7 +727,7 @@ func decodeRaftSnapshot(data []byte) (uint64, myraft.Snapshot, error) {
 	if err != nil {
 		return 0, snap, err
 	}
-	if idx+int(size) > len(data) {
+	if size > uint64(len(data)-idx) {
 		return 0, snap, io.ErrUnexpectedEOF
 	}
 	if err := (*raftpb.Snapshot)(&snap).Unmarshal(data[idx : idx+int(size)]); err != nil {
